@@ -1,39 +1,50 @@
 from vlib.props import prop
 
-# counters observed per quick run (5300 cases) are about twice the minima below
-_min_obs_quick = {
+# counters observed in a reference run of 3000 quick-tier cases (seed 1, fixed tree); the minimum demanded of a run is 60% of
+# that, scaled to the run's number of cases (thorough-tier scanners are larger, so its entry counts exceed this by far)
+_OBS_PER_3000 = {
     # (1) conversions
-    "fan_entries_compared": 12000000, "fan_entries_without_bin": 250000, "roundtrips": 3500, "roundtrip_bins_compared": 4000000,
-    "gap_entries_checked": 2000000, "det2d_entries_compared": 200000, "det2d_roundtrips": 900,
+    "fan_entries_compared": 15839262, "fan_entries_without_bin": 348688, "roundtrips": 3942, "roundtrip_bins_compared": 5020398,
+    "gap_entries_checked": 2545010, "det2d_entries_compared": 300310, "det2d_roundtrips": 942,
     # (2) apply / un-apply
-    "apply_checks_efficiencies": 4500, "apply_checks_geo": 3000, "apply_checks_block": 2400, "apply_entries_compared": 40000000,
-    "apply_checks_efficiencies_2d": 900, "apply_checks_geo_2d": 700, "apply_checks_block_2d": 900,
+    "apply_checks_efficiencies": 3000, "apply_checks_geo": 2396, "apply_checks_block": 2013, "apply_entries_compared": 49459708,
+    "apply_checks_efficiencies_2d": 942, "apply_checks_geo_2d": 758, "apply_checks_block_2d": 942,
     # (3) fixed points (exact = bit-exact dyadic pass, generic = random factors with computed band)
-    "fixed_point_checks": 20000,
-    "fixed_point_checks_efficiencies_exact": 4500, "fixed_point_checks_efficiencies_generic": 4500,
-    "fixed_point_checks_geo_exact": 3000, "fixed_point_checks_geo_generic": 3000,
-    "fixed_point_checks_block_exact": 2400, "fixed_point_checks_block_generic": 2400,
-    "fixed_point_checks_efficiencies_2d_exact": 900, "fixed_point_checks_geo_2d_exact": 700, "fixed_point_checks_block_2d_exact": 900,
-    "geo_classes_estimated": 500000,
+    "fixed_point_checks": 32102,
+    "fixed_point_checks_efficiencies_exact": 3000, "fixed_point_checks_efficiencies_generic": 3000,
+    "fixed_point_checks_efficiencies_without_model_exact": 6000, "fixed_point_checks_efficiencies_without_model_generic": 6000,
+    "fixed_point_checks_geo_exact": 2396, "fixed_point_checks_geo_generic": 2396,
+    "fixed_point_checks_block_exact": 2013, "fixed_point_checks_block_generic": 2013,
+    "fixed_point_checks_efficiencies_2d_exact": 942, "fixed_point_checks_efficiencies_2d_generic": 942,
+    "fixed_point_checks_geo_2d_exact": 758, "fixed_point_checks_geo_2d_generic": 758,
+    "fixed_point_checks_block_2d_exact": 942, "fixed_point_checks_block_2d_generic": 942,
+    "geo_classes_estimated": 611970,
     # (4) KL descent
-    "kl_steps_checked": 15000, "kl_steps_checked_stir_value": 5000, "kl_steps_checked_driver": 100,
+    "kl_steps_checked": 15870, "kl_steps_checked_stir_value": 6113, "kl_steps_checked_driver": 229,
     # (6) driver
-    "driver_runs": 500, "driver_kl_reports": 1500, "driver_outer_iterations_completed": 500,
+    "driver_runs": 522, "driver_kl_reports": 2678, "driver_outer_iterations_completed": 785,
     # configuration classes
-    "cfg_no_gaps": 1800, "cfg_gaps_transaxial": 800, "cfg_gaps_transaxial_and_axial": 800, "scanners_with_gaps": 1600,
-    "cfg_max_delta_0": 600, "cfg_max_delta_partial": 700, "cfg_max_delta_full": 2000, "cfg_full_fan": 400,
-    "cfg_geo_unit_is_bucket": 1000,
+    "cfg_no_gaps": 1535, "cfg_gaps_transaxial": 744, "cfg_gaps_transaxial_and_axial": 721, "scanners_with_gaps": 1465,
+    "cfg_max_delta_0": 594, "cfg_max_delta_partial": 699, "cfg_max_delta_full": 1707, "cfg_full_fan": 429,
+    "cfg_geo_unit_is_bucket": 966,
 }
+_QUICK = [dict(flavour="asan", cases=800), dict(flavour="rel", cases=30000)]
+_THOROUGH = [dict(flavour="asan", cases=500), dict(flavour="rel", cases=60000)]
+
+
+def _min_obs(stages):
+    n = sum(st["cases"] for st in stages)
+    return {k: int(0.6 * v * n / 3000) for k, v in _OBS_PER_3000.items()}
+
 
 prop("C20",
      harness="c20_mlnorm",
      runs={
-         "quick": [dict(flavour="asan", cases=300), dict(flavour="rel", cases=5000)],
-         "thorough": [dict(flavour="asan", cases=600), dict(flavour="rel", cases=12000)],
+         "quick": _QUICK,      # about 0.6 cpu-s per case under ASan, 8 ms at -O2
+         "thorough": _THOROUGH,  # larger scanners: about 5.4 cpu-s per case under ASan, 43 ms at -O2
      },
-     min_nontrivial={"quick": 3000, "thorough": 6000},
-     min_obs={"quick": _min_obs_quick,
-              "thorough": {k: 2 * v for k, v in _min_obs_quick.items()}},
+     min_nontrivial={"quick": 18000, "thorough": 36000},
+     min_obs={"quick": _min_obs(_QUICK), "thorough": _min_obs(_THOROUGH)},
      rule=("case = one generated cylindrical scanner (8..40/72 detectors per ring, 1..7/12 rings, 1..6 physical transaxial x 1..3 "
            "axial crystals per block, 1..3 x 1..2 blocks per bucket, even number of transaxial blocks; 45% without virtual crystals, "
            "25% with one virtual transaxial crystal per block (scanner type Siemens_mMR), 30% with one virtual transaxial and one "
